@@ -64,7 +64,15 @@ def rand_soft(rng, seq, role="constraint", allow=None):
     if k == "stop":
         if n < 3:
             return dict(kind="pattern", pattern="AA", location=None)
-        return dict(kind="stop", location=rand_loc(rng, n, codon=True),
+        loc = rand_loc(rng, n, codon=True)
+        r = rng.random()
+        if r < 0.15:
+            loc = None                                   # the whole sequence, whatever its length
+        elif r < 0.4:
+            # any span, on any strand (0 = unstranded tuple): its length need not be a multiple of 3, the frame is
+            # counted from the span's 5' end and a trailing partial codon is ignored
+            loc = rand_loc(rng, n, 3, strands=(0, 0, 1, -1))
+        return dict(kind="stop", location=loc,
                     table=rng.choice(["Standard", "Bacterial", "Vertebrate Mitochondrial", "Ciliate Nuclear", "Yeast Mitochondrial"]))
     if k == "kmers":
         d = dict(kind="kmers", k=rng.choice([2, 3, 4, 5]), location=None if whole else rand_loc(rng, n, 6, strands=(1, 0)),
@@ -255,7 +263,7 @@ def build_spec(d):
 def _build_spec(d):
     import dnachisel as dc
     k = d["kind"]
-    loc = hard.mkloc(tuple(d["location"])) if d.get("location") else None
+    loc = hard.mkloc(tuple(d["location"])) if (d.get("location") and not d.get("no_location")) else None
     boost = d.get("boost", 1.0)
     if k in ("keep", "keep_idx", "cds", "rare", "sequence", "choice", "change", "change_idx"):
         return hard.build_constraint(d)
